@@ -268,6 +268,28 @@ def field_write_scan(ob):
     ob.prove('scan_nonempty', n >= 8)
 
 
+# ---- premise (1), dense sources: wf of TT(dense tensor / ndarray [, shape]) -- the wf obligations of the C01 constructor scenarios
+def _import_dense_ctor():
+    import inspect
+    from ttvc.oblig import Scenario, SCENARIOS
+    from . import c01 as _c01
+    for s_ in list(SCENARIOS.get('C01', [])):
+        if s_.name not in ('to_tt', 'to_tt.rmax_list', 'mat_to_tt'):
+            continue
+
+        def mk(fn):
+            def inner(ob, **kw):
+                fn(ob, **kw)
+                ob.results = [r for r in ob.results if r['kind'] in ('wf', 'frame') or r['name'] in ('N', 'M', 'kind')]
+            inner.__signature__ = inspect.signature(fn)
+            return inner
+        small = [p for p in s_.grid('quick') if p.get('d', 1) <= 3]
+        SCENARIOS.setdefault('C05', []).append(Scenario('C05', 'ctor.dense.via.C01.%s' % s_.name, s_.func, mk(s_.fn), small, s_.grid_quick, replay=s_.replay, max_paths=s_.max_paths))
+
+
+_import_dense_ctor()
+
+
 @scenario('C05', 'canary.wf_without_rank_check', 'torchtt._tt_base.TT.__init__', quick=[dict()], replay=None)
 def canary(ob):
     """two cores with independent ranks: claiming that construction never raises must be refuted"""
